@@ -522,30 +522,52 @@ func (w *world) lossClass(o op, pre map[string][]byte, ws []write, j int, lost [
 	if len(old) == 0 {
 		return "pin-lost/" + o.kind + "-fresh"
 	}
-	oldDeleted, newWritten := 0, false
+	// which old records are gone at the crash point, was a new one written?
+	oldR, oldD, goneR, goneD, newWritten := 0, 0, 0, 0, false
+	gone := map[string]bool{}
 	for _, x := range ws[:j] {
 		if _, isOld := old[x.key]; x.del && isOld {
-			oldDeleted++
+			gone[x.key] = true
 		}
 		if !x.del && strings.HasPrefix(x.key, "/pins/pin/") {
 			newWritten = true
 		}
 	}
+	for key, mode := range old {
+		if mode == int(ipfspin.Recursive) {
+			oldR++
+			if gone[key] {
+				goneR++
+			}
+		} else {
+			oldD++
+			if gone[key] {
+				goneD++
+			}
+		}
+	}
+	targetLost := false
 	for _, l := range lost {
-		if l != o.a && !w.reach[o.a][l] {
+		if l == o.a {
+			targetLost = true
+		} else if !w.reach[o.a][l] {
 			return "pin-lost/" + o.kind + "-unrelated-cid"
 		}
 	}
-	if oldDeleted == len(old) && !newWritten {
+	// the target itself is unprotected only when every old record is gone;
+	// its descendants are unprotected as soon as the old recursive record is
+	// gone (a remaining direct record does not cover them)
+	inGap := !newWritten && ((targetLost && goneR == oldR && goneD == oldD) || (!targetLost && oldR > 0 && goneR == oldR))
+	if inGap {
 		newMode := "direct"
 		if (o.kind == "pin" && o.flag) || (o.kind == "pinmode" && o.mode == ipfspin.Recursive) {
 			newMode = "recursive"
 		}
 		oldMode := "direct"
-		for _, m := range old {
-			if m == int(ipfspin.Recursive) {
-				oldMode = "recursive"
-			}
+		if oldR > 0 && oldD > 0 {
+			oldMode = "recursive+direct" // only reachable through C22's update-onto-direct defect
+		} else if oldR > 0 {
+			oldMode = "recursive"
 		}
 		return "repin/gap-between-remove-and-add/" + newMode + "-over-" + oldMode
 	}
